@@ -6,7 +6,7 @@
 (* input of the step; the benefit -> selection map is the clause C06_SelectionExact of the *)
 (* trace specification.                                                                    *)
 EXTENDS DimWiseOps
-CONSTANTS D, LMIN, LMAX, LAT, VERSION, REBALANCE, SFN, SFD, BOUNDARY, MAXSTEPS, MAXSEL
+CONSTANTS D, LMIN, LMAX, LAT, VERSION, REBALANCE, SFN, SFD, BOUNDARY, MAXSTEPS, MAXSEL, SELDIMS
 VARIABLES tree, lmax, active, old, scheme, pts, steps, aborted
 vars == <<tree, lmax, active, old, scheme, pts, steps, aborted>>
 cf == [D |-> D, lmin |-> LMIN, version |-> VERSION, boundary |-> BOUNDARY]
@@ -24,7 +24,7 @@ Init == /\ tree = [d \in 1..D |-> InitTree(LMAX, LAT)]
         /\ steps = 0
         /\ aborted = FALSE
 
-AllIntervals == UNION {{<<d, i>> : i \in 1..NIv(tree[d])} : d \in 1..D}
+AllIntervals == UNION {{<<d, i>> : i \in 1..NIv(tree[d])} : d \in SELDIMS}     \* SELDIMS: dimensions in which intervals are selected
 Splittable(iv) == tree[iv[1]][iv[2] + 1].p - tree[iv[1]][iv[2]].p >= 2
 
 RefineStep(Sel, tie) ==
